@@ -36,6 +36,7 @@ type output struct {
 	Stats            map[string]*posStats `json:"stats"`
 	ClassesReached   map[string]int       `json:"classes_reached"`
 	Mismatches       []mismatch           `json:"mismatches"`
+	Failing          map[string][]string  `json:"failing"` // family|kind|group -> failing abstract strings
 	Conformance      confResult           `json:"conformance"`
 	Infra            []string             `json:"infra"`
 	Samples          []map[string]any     `json:"samples"`
@@ -151,14 +152,21 @@ func hashOf(parts ...string) uint64 {
 }
 
 // selected decides whether abstract string s is placed into position p in this tier.
+//   length <= 2: every position, every host query shape (both tiers)
+//   longer:      one host query shape per position family (rotating with the string);
+//     thorough:  length 3 -> every family; longer (sampled) -> the primary families
+//     quick:     the primary families only: every LIKE position, 1/4 of the others per string
 func selected(tier, s string, p *position) bool {
-	if len(s) <= 2 || tier == "thorough" {
+	if len(s) <= 2 {
 		return true
 	}
-	if !p.Primary {
+	if p.Hosts > 1 && int(hashOf(s, "host")%uint64(p.Hosts)) != p.Host {
 		return false
 	}
-	if p.Hosts > 1 && int(hashOf(s, "host")%uint64(p.Hosts)) != p.Host {
+	if tier == "thorough" {
+		return len(s) == 3 || p.Primary
+	}
+	if !p.Primary {
 		return false
 	}
 	if p.Group == "doLike" {
@@ -177,7 +185,7 @@ func run(args []string) {
 	nrepsShort := fs.Int("reps-short", 1, "concretisations per (string, position) for strings of length 2 (3 for shorter ones)")
 	posFilter := fs.String("positions", "", "substring filter on position names")
 	cpuprof := fs.String("cpuprofile", "", "write a CPU profile")
-	tier := fs.String("tier", "quick", "quick: strings longer than 2 go to the primary positions only (one host shape, 1/4 of them per string; all LIKE positions)")
+	tier := fs.String("tier", "quick", "quick or thorough: see selected()")
 	fs.Parse(args)
 	if *cpuprof != "" {
 		f, _ := os.Create(*cpuprof)
@@ -272,6 +280,13 @@ func run(args []string) {
 		return a.Abstract < b.Abstract
 	})
 	out.Mismatches = ck.mism
+	out.Failing = map[string][]string{}
+	for k, set := range ck.failing {
+		for a := range set {
+			out.Failing[k] = append(out.Failing[k], a)
+		}
+		sort.Strings(out.Failing[k])
+	}
 	out.Infra = ck.infra
 	// a few cases written out
 	for i, cs := range cases {
